@@ -333,12 +333,30 @@ class Stmts:
             if p.name is not None:
                 st.env[p.name] = subj
             return True
-        if isinstance(p, ast.MatchClass) and not p.patterns and not p.kwd_patterns:
+        if isinstance(p, ast.MatchClass):
             from .calls import b_isinstance
 
             rs = self.eval(p.cls, st)
             r = b_isinstance(self, st, [subj, rs[0].val], {})[0].val
-            return r if isinstance(r, bool) else r.z
+            cond = z3.BoolVal(r) if isinstance(r, bool) else r.z
+            if not p.patterns and not p.kwd_patterns:
+                return r if isinstance(r, bool) else r.z
+            # Class(pos..., attr=pattern...): positional sub-patterns go through the class's __match_args__ (given by the contract)
+            attrs = list(p.kwd_attrs)
+            subs = list(p.kwd_patterns)
+            if p.patterns:
+                margs = self.spec.globals.get("__match_args__", {}).get(ast.unparse(p.cls))
+                if margs is None or len(p.patterns) > len(margs):
+                    raise Unsupported(f"positional class pattern {ast.unparse(p.cls)} without __match_args__ in the contract")
+                attrs = list(margs[: len(p.patterns)]) + attrs
+                subs = list(p.patterns) + subs
+            for attr, sub in zip(attrs, subs):
+                vs = self.getattr(subj, attr, st, f"<match>.{attr}")
+                if len(vs) != 1 or vs[0].kind != "val":
+                    raise Unsupported("attribute of a matched object is not a plain value")
+                c = self.match_pattern(sub, vs[0].val, st)
+                cond = z3.And(cond, z3.BoolVal(c) if isinstance(c, bool) else c)
+            return z3.simplify(cond)
         if isinstance(p, ast.MatchOr):
             cs = [self.match_pattern(q, subj, st) for q in p.patterns]
             cs = [z3.BoolVal(c) if isinstance(c, bool) else c for c in cs]
